@@ -12,9 +12,15 @@ fn set_mtime(p: &std::path::Path, secs: i64) {
     unsafe { libc::utimensat(libc::AT_FDCWD, c.as_ptr(), ts.as_ptr(), libc::AT_SYMLINK_NOFOLLOW) };
 }
 
-struct TNode { path: String, kind: u8, content: Vec<u8>, mode: u32, mtime: i64 }
+struct TNode { path: String, kind: u8, content: Vec<u8>, mode: u32, mtime: i64, xattrs: Vec<(String, Vec<u8>)> }
 
-fn gen_tree(rng: &mut rand_chacha::ChaCha8Rng, root: &std::path::Path, thorough: bool) -> Vec<TNode> {
+fn xattr_map(p: &std::path::Path) -> Vec<(String, Vec<u8>)> {
+    let mut v: Vec<(String, Vec<u8>)> = xattr::list(p).map(|l| l.filter_map(|n| { let name = n.to_string_lossy().to_string(); if !name.starts_with("user.") { return None; } Some((name, xattr::get(p, &n).ok().flatten().unwrap_or_default())) }).collect()).unwrap_or_default();
+    v.sort();
+    v
+}
+
+fn gen_tree(rng: &mut rand_chacha::ChaCha8Rng, root: &std::path::Path, thorough: bool, big: bool) -> Vec<TNode> {
     let dirs_pool = ["t", "t/d", "t/d/e", "t/sp ace", "t/ünï", "t/-dash", "t/empty1", "t/d/empty2", "t/deep/er/still"];
     let long = "L".repeat(200);
     let file_names = ["a.txt", "b b.bin", "ünï.dat", "-leading", ".hidden", &long[..], "z", "日本.txt"];
@@ -31,14 +37,26 @@ fn gen_tree(rng: &mut rand_chacha::ChaCha8Rng, root: &std::path::Path, thorough:
         for _ in 0..rng.gen_range(0..3) {
             let f = format!("{d}/{}", file_names[rng.gen_range(0..file_names.len())]);
             if files.contains(&f) { continue; }
-            let n = match rng.gen_range(0..10) { 0 => 0, 1 if thorough => 300_000, 1 => 70_000, _ => rng.gen_range(1..200) };
+            // `big`: one file beyond 1 MiB and one of exactly 1 MiB (buffer- and chunk-size boundaries of the writers)
+            let n = if big && files.is_empty() { 2_600_000 } else if big && files.len() == 1 { 1 << 20 } else { match rng.gen_range(0..10) { 0 => 0, 1 if thorough => 300_000, 1 => 70_000, _ => rng.gen_range(1..200) } };
             let content = bytes(rng, n);
             std::fs::write(root.join(&f), &content).unwrap();
             let mode = [0o644u32, 0o600, 0o755, 0o444, 0o640, 0o4755, 0o2755, 0o6711, 0o1644, 0o7777, 0o000][rng.gen_range(0..11)];
             std::fs::set_permissions(root.join(&f), std::fs::Permissions::from_mode(mode)).unwrap();
             let mtime = 1_000_000_000 + rng.gen_range(0..700_000_000);
+            // extended attributes (restored with --keep-xattr on both sides): text, empty and binary values; set before the
+            // mode (a read-only file takes no attributes) and before the mtime
+            let mut xattrs: Vec<(String, Vec<u8>)> = vec![];
+            if rng.gen_bool(0.4) {
+                std::fs::set_permissions(root.join(&f), std::fs::Permissions::from_mode(0o644)).unwrap();
+                for (k, v) in [("user.comment", &b"hello"[..]), ("user.empty", &b""[..]), ("user.bin", &[0u8, 1, 255, 0, 10][..]), ("user.flag", &b""[..])] {
+                    if rng.gen_bool(0.5) && xattr::set(root.join(&f), k, v).is_ok() { xattrs.push((k.to_string(), v.to_vec())); }
+                }
+                xattrs.sort();
+                std::fs::set_permissions(root.join(&f), std::fs::Permissions::from_mode(mode)).unwrap();
+            }
             set_mtime(&root.join(&f), mtime);
-            nodes.push(TNode { path: f.clone(), kind: 0, content, mode, mtime });
+            nodes.push(TNode { path: f.clone(), kind: 0, content, mode, mtime, xattrs });
             files.push(f);
         }
     }
@@ -58,13 +76,13 @@ fn gen_tree(rng: &mut rand_chacha::ChaCha8Rng, root: &std::path::Path, thorough:
             _ => "no/such/target".to_string(),
         };
         if std::os::unix::fs::symlink(&target, root.join(&name)).is_ok() {
-            nodes.push(TNode { path: name, kind: 2, content: target.into_bytes(), mode: 0o777, mtime: 0 });
+            nodes.push(TNode { path: name, kind: 2, content: target.into_bytes(), mode: 0o777, mtime: 0, xattrs: vec![] });
         }
     }
     for d in &all_dirs {
         let mode = [0o755u32, 0o700, 0o775, 0o2775, 0o1777, 0o3770][rng.gen_range(0..6)];
         std::fs::set_permissions(root.join(d), std::fs::Permissions::from_mode(mode)).unwrap();
-        nodes.push(TNode { path: d.clone(), kind: 1, content: vec![], mode, mtime: 0 });
+        nodes.push(TNode { path: d.clone(), kind: 1, content: vec![], mode, mtime: 0, xattrs: vec![] });
     }
     nodes
 }
@@ -78,17 +96,22 @@ pub fn cli_tree(ctx: &mut Ctx) {
     let n = if ctx.thorough { 500 } else { 40 };
     for case in 0..n {
         let sbx = Sbx::new("tree", case);
-        let nodes = gen_tree(&mut rng, &sbx.root, ctx.thorough);
+        // cases 0 and 1: a file beyond 1 MiB, stored and CTR-encrypted per entry (no compressor in between, so the cipher writer sees the
+        // large writes), once as a file archive and once split
+        let big = case < 2;
+        let nodes = gen_tree(&mut rng, &sbx.root, ctx.thorough, big);
         let keep_dir = rng.gen_bool(0.5);
         let (ktc, kpc, ktx, kpx) = (rng.gen_bool(0.6), rng.gen_bool(0.6), rng.gen_bool(0.7), rng.gen_bool(0.7));
+        let (kxc, kxx) = (rng.gen_bool(0.7), rng.gen_bool(0.8));
         let comp: Vec<String> = match rng.gen_range(0..5) { 0 => vec!["--store".into()], 1 => vec!["--deflate".into(), rng.gen_range(1..10).to_string()], 2 => vec!["--zstd".into(), rng.gen_range(1..12).to_string()], 3 => vec!["--xz".into(), rng.gen_range(0..6).to_string()], _ => vec![] };
-        let enc = rng.gen_range(0..5);
+        let enc = if big { 2 + 2 * case } else { rng.gen_range(0..5) };
         let pw = "tree-password 1";
         let mut cipher: Vec<String> = match enc { 1 => vec!["--aes".into(), "cbc".into()], 2 => vec!["--aes".into(), "ctr".into()], 3 => vec!["--camellia".into(), "cbc".into()], 4 => vec!["--camellia".into(), "ctr".into()], _ => vec![] };
         if enc != 0 { cipher.push(format!("--password={pw}")); if rng.gen_bool(0.5) { cipher.push("--pbkdf2".into()); cipher.push("r=1".into()); } else { cipher.push("--argon2".into()); cipher.push("t=1,m=8,p=1".into()); } }
-        let solid = rng.gen_bool(0.3);
-        let stdio = rng.gen_bool(0.25);
-        let split = !stdio && rng.gen_bool(0.25);
+        let solid = !big && rng.gen_bool(0.3);
+        let stdio = !big && rng.gen_bool(0.25);
+        let split = (big && case == 1) || (!big && !stdio && rng.gen_bool(0.25));
+        let comp: Vec<String> = if big { vec!["--store".into()] } else { comp };
         let mut cargs: Vec<String> = vec!["--quiet".into()];
         // split archives also under names that are not `*.pna` (dotted, no extension): the part names must chain
         let arch_name: &str = if split { ["a.pna", "a.pna", "arc.v1.2.tar", "backup", "my.archive.PNA"][rng.gen_range(0..5)] } else { "a.pna" };
@@ -97,8 +120,9 @@ pub fn cli_tree(ctx: &mut Ctx) {
         if keep_dir { cargs.push("--keep-dir".into()); }
         if ktc { cargs.push("--keep-timestamp".into()); }
         if kpc { cargs.push("--keep-permission".into()); }
+        if kxc { cargs.push("--keep-xattr".into()); }
         if solid { cargs.push("--solid".into()); }
-        if split { cargs.push("--split".into()); cargs.push(["300", "1000", "50000"][rng.gen_range(0..3)].into()); }
+        if split { cargs.push("--split".into()); cargs.push(if big { "1500000" } else { ["300", "1000", "50000"][rng.gen_range(0..3)] }.into()); }
         cargs.push("t".into());
         let cv: Vec<&str> = cargs.iter().map(|s| s.as_str()).collect();
         let cr = run_pna(&sbx, &sbx.root, &cv, None, 120, &[]);
@@ -130,6 +154,7 @@ pub fn cli_tree(ctx: &mut Ctx) {
         if enc != 0 { xargs.push(format!("--password={pw}")); }
         if ktx { xargs.push("--keep-timestamp".into()); }
         if kpx { xargs.push("--keep-permission".into()); }
+        if kxx { xargs.push("--keep-xattr".into()); }
         let xv: Vec<&str> = xargs.iter().map(|s| s.as_str()).collect();
         let data = if let Some(ps) = part_stream { Some(ps) } else if xstdio { Some(std::fs::read(sbx.path("a.pna")).unwrap()) } else { None };
         let xr = run_pna(&sbx, &sbx.root, &xv, data.as_deref(), 40, &[]);
@@ -145,6 +170,7 @@ pub fn cli_tree(ctx: &mut Ctx) {
                     if *content != nd.content { problems.push(format!("{}: content differs", nd.path)); }
                     if kpc && kpx && *mode != nd.mode { problems.push(format!("{}: mode {:o} != {:o}", nd.path, mode, nd.mode)); }
                     if ktc && ktx && *mtime != nd.mtime { problems.push(format!("{}: mtime {} != {}", nd.path, mtime, nd.mtime)); }
+                    if kxc && kxx { let got = xattr_map(&sbx.path("out").join(&nd.path)); if got != nd.xattrs { problems.push(format!("{}: extended attributes {:?} != {:?}", nd.path, got.iter().map(|(k, v)| format!("{k}={}", hexw(v))).collect::<Vec<_>>(), nd.xattrs.iter().map(|(k, v)| format!("{k}={}", hexw(v))).collect::<Vec<_>>())); } }
                 }
                 (2, Some(Node::Symlink { target })) => { if target.as_bytes() != &nd.content[..] { problems.push(format!("{}: link target {:?} != {:?}", nd.path, target, String::from_utf8_lossy(&nd.content))); } }
                 (1, Some(Node::Dir { mode })) => { if keep_dir && kpc && kpx && *mode != nd.mode { problems.push(format!("{}: directory mode {:o} != {:o}", nd.path, mode, nd.mode)); } }
